@@ -138,6 +138,29 @@ CHECKS = {
              'exactly what the same call observes alone, and the fingerprint of every module global, module-level container and '
              'class-level data attribute of the library (and a digest of the tables) must be unchanged after every execution.',
         note='trusted: CPython (one bytecode is atomic), stdlib internals atomic, import lock; <=3 threads; preemption bounds as stated'),
+    'C03': dict(
+        engine=E1, design_ref='DESIGN.md section 7 C03',
+        technique='exhaustive enumeration of insertion points x inserted line kinds over the required instance of every message '
+                  'structure, all short words over a segment alphabet, and one excess element per level, through parse_message '
+                  'with find_groups on and off; oracle: reference decoder (segment names and non-empty leaves in order)',
+        text='For each of ~1,970 concrete structures of the 12 versions the required-only instance receives, at every position, a '
+             'Z-segment, a segment foreign to the structure, a duplicate of the neighbour and a garbled id (Q9Q); for 3 (thorough '
+             '20) structures per version all words up to length 3 (4) over {3 in-structure names, a foreign name, ZZZ} are appended '
+             'to MSH; one line per level carries an element beyond the defined count (fields, components, subcomponents, '
+             'components / subcomponents inside base-datatype fields, repetitions beyond the maximum). Each text (~33,000 in quick) '
+             'is parsed with find_groups on and off: either an HL7apyException surfaces or the encoded result has the same segment '
+             'names in the same order and the same non-empty leaves per segment; both settings must agree.',
+        note='trusted: reference decoder; instance generator reads the tables; structures with anomalous rows are blocked (82)'),
+    'C08': dict(
+        engine=E1, design_ref='DESIGN.md section 7 C08',
+        technique='exhaustive enumeration of table-derived derivation trees (required / all / repeated groups to depth 3 / each '
+                  'optional child alone) for every message structure through the real group finder; oracle: soundness against the '
+                  'reference tuples, flattening, exact tree for unambiguous structures',
+        text='~17,800 instances of ~1,970 structures (998 unambiguous) are parsed with find_groups=True: every element must be a '
+             'declared child of its parent per the tables, flattening must give the input sequence, the encoding must equal that of '
+             'find_groups=False, two parses must agree, and for structures whose segment names occur at one place the tree must be '
+             'exactly the derivation tree and draw no message- or group-level validation error.',
+        note='trusted: instance generator and the tables; bare segment bodies; 2 known findings (D15, D16)'),
     'C06': dict(
         engine=E1, design_ref='DESIGN.md section 7 C06',
         technique='bounded-exhaustive enumeration (all strings <= 5/6 over the delimiter/escape alphabet x every textual '
